@@ -177,7 +177,57 @@ def generate(out_dir=GEN_DIR):
          + f'-- {info["names"]} names, {info["implementations"]} implementations\n'
          + '\nend KV.Gen\n')
     write_if_changed(os.path.join(out_dir, 'Techlib.lean'), t)
+    generate_impls(out_dir)
     return info
+
+
+# ---- the implementation circuits themselves as `NNet` dumps (C10: `substitute_isSome`, library sweep) ----
+N_IMPL_CHUNKS = 8
+
+
+def _str(name):
+    if not isinstance(name, str) or any(ch in '"\\\n' or not (32 <= ord(ch) < 127) for ch in name):
+        raise GenError(f'unexpected character in name {name!r}')
+    return f'"{name}"'
+
+
+def render_nnet(c):
+    """the canonical dump of a circuit (harness/circ.py: dump_net / dump_names) as a Lean `KV.Transform.NNet` value"""
+    def pins(l): return '[' + ', '.join('none' if x is None else f'some {x.index}' for x in l) + ']'
+    for i, n in enumerate(c.nodes):
+        if n.index != i: raise GenError(f'{c.name}: node index {n.index} at position {i}')
+    for i, l in enumerate(c.lines):
+        if l.index != i: raise GenError(f'{c.name}: line index {l.index} at position {i}')
+    nodes = ', '.join(f'⟨{_str(n.kind)}, {pins(n.ins)}, {pins(n.outs)}⟩' for n in c.nodes)
+    lines = ', '.join(f'⟨{l.driver.index}, {l.driver_pin}, {l.reader.index}, {l.reader_pin}⟩' for l in c.lines)
+    io = ', '.join(str(n.index) for n in c.io_nodes)
+    names = ', '.join(_str(n.name) for n in c.nodes)
+    return f'{{ net := {{ nodes := #[{nodes}], lines := #[{lines}], io := [{io}] }}, names := #[{names}] }}'
+
+
+def generate_impls(out_dir=GEN_DIR):
+    """Gen/TechImpl<k>.lean: for every distinct implementation circuit of the five libraries (same order as the `Cell` rows)
+    (library index, first key, dump as NNet)"""
+    from kyupy import techlib
+    rows = []
+    for li, ln in enumerate(LIBS):
+        for c, pd, names in impl_rows(getattr(techlib, ln)):
+            rows.append(f'  ({li}, {_str(names[0])}, {render_nnet(c)})')
+    head = ('-- GENERATED by gen/dump_techlib.py from the kyupy working tree. Do not edit.\n'
+            'import KyupyVerif.Model.SubstSem\nnamespace KV.Gen\nopen KV KV.Transform\n\n')
+    n = len(rows)
+    bounds = [round(k * n / N_IMPL_CHUNKS) for k in range(N_IMPL_CHUNKS + 1)]
+    for k in range(N_IMPL_CHUNKS):
+        part = rows[bounds[k]:bounds[k + 1]]
+        t = head + f'def techImplChunk{k} : List (Nat × String × NNet) := [\n' + ',\n'.join(part) + ']\n\nend KV.Gen\n'
+        write_if_changed(os.path.join(out_dir, f'TechImpl{k}.lean'), t)
+    t = ('-- GENERATED by gen/dump_techlib.py from the kyupy working tree. Do not edit.\n'
+         + ''.join(f'import KyupyVerif.Gen.TechImpl{k}\n' for k in range(N_IMPL_CHUNKS))
+         + 'namespace KV.Gen\nopen KV KV.Transform\n\n'
+         + 'def techImplChunks : List (List (Nat × String × NNet)) := [' + ', '.join(f'techImplChunk{k}' for k in range(N_IMPL_CHUNKS)) + ']\n'
+         + f'-- {n} implementations\n\nend KV.Gen\n')
+    write_if_changed(os.path.join(out_dir, 'TechImpl.lean'), t)
+    return n
 
 
 if __name__ == '__main__':
